@@ -235,7 +235,7 @@ class C03(Spec):
         if scenarios:
             exe = tsan_binary()
             for sc in scenarios:
-                for iters in (100, 1000):
+                for iters in (100, 1000, 4000):
                     rc, reps = run_tsan(exe, sc, iters)
                     if reps:
                         found.append(("data race reported by ThreadSanitizer in scenario `%s`: %s" % (sc, ", ".join(report_functions(reps[0])[:4])),
